@@ -4,6 +4,7 @@ import GramModel.Lemmas.Oracle
 import GramModel.Typing
 import GramModel.Lemmas.Fuel
 import GramModel.Lemmas.TypingSound
+import GramModel.Lemmas.CheckSound
 
 /-!
 # C03 — the type checker never accepts an ill-typed program
@@ -196,3 +197,97 @@ example : HasType [] [] C03_ex_group .int :=
 example : HasType [] [] (.lam 2 false .type (.lam 3 false (.var 2 0) (.var 3 0)))
     (.pi 2 false .type (.pi 3 false (.var 2 0) (.var 2 1))) :=
   C03_infer_sound 4 [] [] _ _ rfl (fun _ h => by cases h) (fun _ h => by cases h) (C03_of_infersB (by decide))
+
+/-! ## gram's own checker on fully annotated programs (the statement of C03 restricted to hole-free sources) -/
+
+/-- **C03 for hole-free source programs.**  If the model of gram's checker accepts a closed, hole-free
+(fully annotated) program without reporting an error, then the zonked elaboration has the zonked reported
+type under the declarative rules of `Typing.lean`.  (For programs with holes this is false — KF-holecopy,
+KF-holedepth; the witnesses are above and in `Props/C14.lean`.)  The cells the checker allocates itself (two
+per application) are the only holes in play. -/
+def C03_checker_sound_holefree_stmt : Prop :=
+  ∀ (fuel : Nat) (t e ty ze zty : Tm) (s : St), t.holeFree = true → wellScoped 0 t = true →
+    inferS fuel t {} = .ok (e, ty) s → s.nerrs = 0 →
+    zonk fuel s.store e = some ze → zonk fuel s.store ty = some zty →
+    ze.holeFree = true → zty.holeFree = true → HasType [] [] ze zty
+theorem C03_checker_sound_holefree : C03_checker_sound_holefree_stmt := by
+  intro fuel t e ty ze zty s ht _ h hn hze hzty _ _
+  obtain ⟨rfl, hty, j⟩ := CheckSound.checker_sound_generic
+    (CheckSound.rules_HasType CheckSound.groupRuleAdmissible) ht h hn
+  rw [CheckSound.zonk_holeFree ht hze, CheckSound.zonk_holeFree hty hzty]
+  exact j
+
+/-- The elaboration of a hole-free program is the program itself (nothing to fill in). -/
+def C03_checker_elab_holefree_stmt : Prop :=
+  ∀ (fuel : Nat) (t e ty : Tm) (s : St), t.holeFree = true →
+    inferS fuel t {} = .ok (e, ty) s → e = t
+theorem C03_checker_elab_holefree : C03_checker_elab_holefree_stmt :=
+  fun _ _ _ _ _ _ h => inferS_elab_id h
+
+/-! ### How `C03_checker_sound_holefree` is proved, and its by-products
+
+`Lemmas/CheckSound.lean`: on a hole-free program every type the checker computes in an error-free run
+is hole-free (the two cells of an application are solved at once with the components of the weak head
+normal form of the function's type), every `unifyS` call has one of three shapes (`unify_pi_fresh`,
+`unify_solved`, hole-free against hole-free — `unifyS_cv`), each of which yields a `Conv` derivation,
+and the run is a derivation in any judgement closed under `CheckSound.Rules` — the rules of
+`Typing.lean` with the group rule replaced by the *unfolding* rule that gram implements
+(`groupTypeX ds bty`: every group variable `x` of the body's type replaced by the closed term `ds; x`).
+The unfolding rule is admissible in `HasType` because `ds; bty` and `groupTypeX ds bty` are convertible
+(`C03_group_type_conv`): both are `bty` under a sequence of substitutions, the normalizer's
+(`letStepX`, first definition first) and gram's (`letTypeS`, last definition first), which replace
+every variable by convertible terms.  That argument goes under every constructor of `bty`, including
+nested groups, and therefore needs `Conv` to be a congruence for groups — the rule `Conv.letg` of
+`Typing.lean` (group variables opaque in the premises).  Without that rule the statement is out of
+reach: for `t = int; (z : int) => (f : (int -> type) = (n : int) => if n == 0 then t else f (n - 1);
+(w : f z) => w)` the two types unfold in parallel for ever (the independent checker, which has no such
+rule, answers `.error .fuel` at every fuel). -/
+
+/-- The declarative type of a group, `ds; bty`, is convertible with the type gram computes for it. -/
+def C03_group_type_conv_stmt : Prop :=
+  ∀ (Δ : DCtxX) (ds : Defs) (bty : Tm), ds.holeFree = true → bty.holeFree = true →
+    Conv Δ (.letg ds bty) (CheckSound.groupTypeX ds bty)
+theorem C03_group_type_conv : C03_group_type_conv_stmt := CheckSound.group_type_conv
+
+/-- On a hole-free program an error-free run reports a hole-free type (so zonking changes nothing). -/
+def C03_checker_type_holefree_stmt : Prop :=
+  ∀ (fuel : Nat) (t e ty : Tm) (s : St), t.holeFree = true →
+    inferS fuel t {} = .ok (e, ty) s → s.nerrs = 0 → ty.holeFree = true
+theorem C03_checker_type_holefree : C03_checker_type_holefree_stmt :=
+  fun _ _ _ _ _ ht h hn => (CheckSound.checker_sound_generic CheckSound.rules_HasTypeU ht h hn).2.1
+
+/-- **C03 for hole-free programs, with gram's own group rule.**  An accepted hole-free program has the
+reported type in `CheckSound.HasTypeU`: the declarative system of `Typing.lean` plus the rule that a
+group `ds; body` with `body : bty` may be given the unfolded type `groupTypeX ds bty`. -/
+def C03_checker_sound_unfold_stmt : Prop :=
+  ∀ (fuel : Nat) (t e ty ze zty : Tm) (s : St), t.holeFree = true →
+    inferS fuel t {} = .ok (e, ty) s → s.nerrs = 0 →
+    zonk fuel s.store e = some ze → zonk fuel s.store ty = some zty →
+    CheckSound.HasTypeU [] [] ze zty
+theorem C03_checker_sound_unfold : C03_checker_sound_unfold_stmt := by
+  intro fuel t e ty ze zty s ht h hn hze hzty
+  obtain ⟨rfl, hty, j⟩ := CheckSound.checker_sound_generic CheckSound.rules_HasTypeU ht h hn
+  rw [CheckSound.zonk_holeFree ht hze, CheckSound.zonk_holeFree hty hzty]
+  exact j
+
+/-- **C03 for hole-free programs without definition groups** (dependent functions, applications,
+arithmetic, conditionals): this fragment does not use the group congruence `Conv.letg`. -/
+def C03_checker_sound_nolet_stmt : Prop :=
+  ∀ (fuel : Nat) (t e ty ze zty : Tm) (s : St), t.holeFree = true → CheckSound.noLet t = true →
+    inferS fuel t {} = .ok (e, ty) s → s.nerrs = 0 →
+    zonk fuel s.store e = some ze → zonk fuel s.store ty = some zty → HasType [] [] ze zty
+theorem C03_checker_sound_nolet : C03_checker_sound_nolet_stmt := by
+  intro fuel t e ty ze zty s ht hnl h hn hze hzty
+  obtain ⟨rfl, hty, j⟩ := CheckSound.checker_sound_generic CheckSound.rules_HasTypeNL ht h hn
+  rw [CheckSound.zonk_holeFree ht hze, CheckSound.zonk_holeFree hty hzty]
+  exact j hnl
+
+/-- The only fact about `Conv` that the checker's soundness needs beyond `Typing.lean`'s rules for the
+other constructors: the admissibility of the unfolding group rule. -/
+def C03_checker_sound_modulo_group_stmt : Prop :=
+  CheckSound.GroupRuleAdmissible → C03_checker_sound_holefree_stmt
+theorem C03_checker_sound_modulo_group : C03_checker_sound_modulo_group_stmt := by
+  intro hadm fuel t e ty ze zty s ht _ h hn hze hzty _ _
+  obtain ⟨rfl, hty, j⟩ := CheckSound.checker_sound_generic (CheckSound.rules_HasType hadm) ht h hn
+  rw [CheckSound.zonk_holeFree ht hze, CheckSound.zonk_holeFree hty hzty]
+  exact j
